@@ -62,6 +62,8 @@ Definition wev_eqb (a b : wev) : bool :=
          delivery: events (cell numbers local to the delivery: 0 = its caller payload, then by first appearance; a
          payload already seen in another delivery gets 500+), final content per consumer, IsReadOnly of the caller
          payload, returned error leaves.
+   CBuilt kind sig opts batching | a consumer / processor / exporter built by the real constructor with the
+         WithCapabilities options [opts] (their MutatesData values, in order); observed: Capabilities().MutatesData.
    CRouter sig pipe_caps sel | observed: MutatesData of connector router.Consumer(sel...), of the router
          itself (fan-out over all pipelines), and the pipelines invoked, in order, by the selected consumer.
    CTree sig roots | observed: MutatesData of the consumer handed to the receiver that feeds the root
@@ -95,6 +97,7 @@ Inductive vcase :=
 | CTree (sig : nat) (roots : list pipe) (o_recv_cap : bool) (o_caps : list bool)
 | CGraph (sig : nat) (ro_in : bool) (tree : comp) (o_arr : list (nat * (nat * list Z))) (o_fin : list (nat * list Z))
 | CSess (sig : nat) (caps : list bool) (script : list wslabel) (o_dels : list dobs)
+| CBuilt (kind sig : nat) (opts : list bool) (batching : bool) (o_cap : bool)
 | CRouter (sig : nat) (pipe_caps : list bool) (sel : list nat) (o_cap o_default_cap : bool) (o_calls : list nat).
 
 Record fan_out := mkOut { f_cap : bool; f_evs : list wev; f_final : list (option (list Z)); f_ro0 : bool; f_err : list N }.
@@ -144,6 +147,11 @@ Definition obs_eqb (a b : nat * (nat * list Z)) : bool :=
   Nat.eqb (fst a) (fst b) && Nat.eqb (fst (snd a)) (fst (snd b)) && listZ_eqb (snd (snd a)) (snd (snd b)).
 Definition fin_eqb (a b : nat * list Z) : bool := Nat.eqb (fst a) (fst b) && listZ_eqb (snd a) (snd b).
 
+(* kind 0: consumer.NewX / xconsumer.NewProfiles with WithCapabilities options; 1: processorhelper.NewX with
+   WithCapabilities options; 2: exporterhelper.NewX with WithCapabilities options and batching on / off *)
+Definition model_cap (kind : nat) (opts : list bool) (batching : bool) : bool :=
+  match kind with 0 => base_cap opts | 1 => proc_cap opts | _ => exp_cap opts batching end.
+
 Definition model_sess (caps : list bool) (script : list wslabel) : list dobs :=
   let f := new_fan caps in
   map (fun me => let '(m, errs) := me in
@@ -172,6 +180,7 @@ Definition check_case (c : vcase) : bool :=
       && list_eqb obs_eqb (canon_obs [0] ev) o_arr
       && list_eqb fin_eqb (final_obs s' ev) o_fin
       && match panics ev with [] => true | _ => false end
+  | CBuilt kind _ opts batching o_cap => Bool.eqb (model_cap kind opts batching) o_cap
   | CSess _ caps script o_dels => list_eqb dobs_eqb (model_sess caps script) o_dels
   | CRouter _ pcaps sel o_cap o_dcap o_calls =>
       Bool.eqb (fan_cap (router_fan pcaps sel)) o_cap
@@ -190,6 +199,7 @@ Definition model_out (c : vcase) : mout :=
   | CFan _ caps ro_in c0 errs ls _ _ _ _ _ => MFan (model_fan caps ro_in c0 errs ls)
   | CPipe _ procs exps _ => MCaps [pipeline_cap procs exps]
   | CGraph _ ro tree _ _ => let '(s', ev) := trun tree 0 [mkCell [] ro] in MGraph (canon_obs [0] ev) (final_obs s' ev) (panics ev)
+  | CBuilt kind _ opts batching _ => MCaps [model_cap kind opts batching]
   | CSess _ caps script _ => MSess (model_sess caps script)
   | CRouter _ pcaps sel _ _ _ => MCalls (fan_cap (router_fan pcaps sel)) (fan_cap (new_fan pcaps)) (router_calls pcaps sel)
   | CTree _ roots _ _ => MCaps (fan_cap (new_fan (map pipe_cap_t roots)) :: flat_map pipe_caps roots)
